@@ -50,6 +50,25 @@ Theorem c40_progress_races :
 Proof. split; exists [TE; TE; TE; TE; TE; TM]; vm_compute; reflexivity. Qed.
 Print Assumptions c40_progress_races.
 
+(** The model treats an inspection as ONE critical section of engineControlMu: the
+    micro-steps of a request are never interleaved with those of another HTTP
+    goroutine ([req_steps]).  That is a fact about monitoring2/monitor.go
+    (pauseForInspection locks engineControlMu before Pause and only its resume
+    closure unlocks it; pauseEngine / continueEngine lock the same mutex); the harness
+    re-extracts it from the source with go/ast on every run and check_case compares it
+    with [Exec.model_lock_scope].  It is necessary: if another goroutine's
+    /api/continue can run between the reads of a (user-paused) inspection — the mutex
+    not held across the inspection — the engine resumes under the reader and a racy
+    state is reachable on BOTH engines. *)
+Definition split_inspection : list mstep :=
+  [MAcc (mk_acc VComp false []); MContinueEngine; MSetPaused false; MAcc (mk_acc VComp false [])].
+
+Theorem c40_inspection_needs_control_mutex_refuted :
+  (exists o, s_raced (run (step true [AComp]) o (mk_st ETop 1 false (Some true) split_inspection [] true false)) = true) /\
+  (exists o, s_raced (run (step false [AComp]) o (mk_st ETop 1 true None split_inspection [] true false)) = true).
+Proof. split; exists ([TE; TM; TM; TM] ++ repeat TE 6); vm_compute; reflexivity. Qed.
+Print Assumptions c40_inspection_needs_control_mutex_refuted.
+
 (** Non-vacuity: a parallel run with a handler doing everything and a request mix
     runs to completion race-free under a round-robin oracle. *)
 Example c40_nonvacuous :
